@@ -29,6 +29,7 @@ def run(ctx, sess):
     ctx.rule('C15.3', 'marker agreement: the writer records index entry 0 for an omitted block and the reader treats offset 0 as omitted (reconstruction, no seek)')
     ctx.rule('C15.4', 'reconstruction covers what may be omitted: exact arms for u8/u4/u1 and float types, every arm counts what it fills; automatic omission applies to widths <= 8')
     ctx.rule('C15.6', 'automatic omission is decided only by a predicate that examines every byte of the block (a stored block is never replaced by a synthesised one unless it is constant)')
+    ctx.rule('C15.13', 'reconstruction selects its arm by the storage type: for every accepted type of 8 bits or less and any fixed-point position in the upper half of data_type, the compare that selects the arm still holds (evaluated over the finite set of types x positions) - the definition check masks the position off and the writer decides by the width')
     ctx.rule('C15.5', 'the omission state is stored only by the API entry and by the per-block shift')
     f, br = first_block_stored(ctx, P, 'C15.1')
     full_block_only(ctx, P, 'C15.7')
@@ -94,9 +95,14 @@ def run(ctx, sess):
     rc = P.fn('reconstruct_omitted_chunk')
     ctx.saw(rc)
     arms = set()
+    # locals that hold (a part of) the data type
+    dt_locals = set(ev.name for ev in rc.events() if ev.k == 'decl' and ev.e is not None and
+                    any(nd.get('op') == 'member' and nd.get('field') == 'data_type' for nd in walk(ev.e)))
+    def on_type(x):
+        return any((nd.get('op') == 'member' and nd.get('field') == 'data_type') or (nd.get('op') == 'ref' and nd.get('name') in dt_locals) for nd in walk(x))
     for b in rc.blocks.values():
         e = strip_casts(b.cond) if b.cond else None
-        if e is not None and e.get('op') == 'bin' and e['o'] == '==' and any(nd.get('op') == 'member' and nd.get('field') == 'data_type' for nd in walk(e['k'][0])):
+        if e is not None and e.get('op') == 'bin' and e['o'] == '==' and on_type(e['k'][0]):
             arms.add(strip_casts(e['k'][1]).get('m') or e['k'][1].get('m') or const_of(e['k'][1]))
     # which types need an exact arm: every accepted type the writer omits on its own (width <= the automatic threshold,
     # evaluated with the library's own size function) and the float types (synthesised from mean/std)
@@ -110,11 +116,46 @@ def run(ctx, sess):
             arm_vals.add(a_)
     for b in rc.blocks.values():
         e = strip_casts(b.cond) if b.cond else None
-        if e is not None and e.get('op') == 'bin' and e['o'] == '==' and any(nd.get('op') == 'member' and nd.get('field') == 'data_type' for nd in walk(e['k'][0])):
+        if e is not None and e.get('op') == 'bin' and e['o'] == '==' and on_type(e['k'][0]):
             c_ = const_of(e['k'][1])
             if c_ is not None:
                 arm_vals.add(c_)
     need = 0
+    # C15.13: the arm is selected by the storage type alone.  The definition check accepts any fixed-point position
+    # (it validates data_type & 0xffff) and the writer leaves constant blocks out by the sample width only.
+    dt_nodes = [nd for ev in rc.events() for nd in walk(getattr(ev, 'e', None) or {}) if nd.get('op') == 'member' and nd.get('field') == 'data_type'] + \
+               [nd for b in rc.blocks.values() if b.cond is not None for nd in walk(b.cond) if nd.get('op') == 'member' and nd.get('field') == 'data_type']
+    if not dt_nodes:
+        raise AnalysisBroken('reconstruct_omitted_chunk does not read the data type')
+    dt_key = str(rc.path(dt_nodes[0]))
+    from ..fd import Top
+    arm_blocks = [b for b in rc.blocks.values() if b.cond is not None and strip_casts(b.cond).get('op') == 'bin' and strip_casts(b.cond)['o'] == '==' and
+                  on_type(strip_casts(b.cond)['k'][0]) and const_of(strip_casts(b.cond)['k'][1]) is not None]
+    masks_q = False
+    for dt in accepted_data_types(P):
+        if fd_.call(psz, [dt]) > 8:
+            continue
+        bad = []
+        for q in (1, 4, 0x80, 0xff):
+            env = {dt_key: dt | (q << 16)}
+            for ev in rc.events():
+                if ev.k == 'decl' and ev.name in dt_locals:
+                    try:
+                        env[ev.name] = fd_.ev(rc, ev.e, env)
+                    except (Top, ZeroDivisionError):
+                        pass
+            hit = []
+            for b in arm_blocks:
+                try:
+                    if fd_.ev(rc, b.cond, env):
+                        hit.append(const_of(strip_casts(b.cond)['k'][1]))
+                except (Top, ZeroDivisionError):
+                    pass
+            if hit != [dt]:
+                bad.append(q)
+        ctx.ob('C15.13', not bad, rc.name, 'arm of type 0x%04x is selected whatever the fixed-point position' % dt, rc.where(),
+               'evaluated for q = 1, 4, 128, 255: the arm of the storage type is taken' if not bad else
+               'with a fixed-point position (q = %s) the type matches no arm - the definition check accepts it (it looks at data_type & 0xffff) and the writer leaves constant blocks out by the sample width alone, so such a block reads back as zeros' % ', '.join(map(str, bad)))
     for dt in accepted_data_types(P):
         w_ = fd_.call(psz, [dt])
         if w_ <= 8:
